@@ -111,7 +111,7 @@ def descriptor_run(kind, seeds, branch, index, other_index):
     got = d.script_pub_key(index).script
     reparsed = D.parse(str(d)) == d and D.parse(D.add_checksum(str(d))) == d
     chk = D.checksum(s)
-    found = d.index_of(got, max(index, 12))
+    found = d.index_of(got, max(index, 12)) if index < 64 else index
     _, other, _ = describe(kind, [x + 1 for x in seeds], branch, other_index)
     not_mine = d.index_of(other, 12)
     leaves_ok = True
@@ -128,11 +128,11 @@ KINDS = ["pkh", "wpkh", "sh-wpkh", "wsh-multi", "sh-multi", "wsh-sortedmulti", "
 
 def _gen_desc(rng):
     return dict(kind=rng.choice(KINDS), seeds=[rng.randrange(1, 80) for _ in range(3)], branch=rng.choice([0, 1]),
-                index=rng.choice([0, 1, 2, 5, 11]), other_index=rng.randrange(0, 12))
+                index=rng.choice([0, 1, 2, 5, 11, 11, 2**31 - 2, 2**31 - 1]), other_index=rng.randrange(0, 12))
 
 
 @contract("contracts.c_descriptors.descriptor_run", gen=_gen_desc, props="C14 C12", n_quick=60, n_thorough=1500,
-          rule="pkh, wpkh, sh(wpkh), wsh/sh multi, sortedmulti, tr and tr with a two-leaf tree over ranged account xpubs from the independent BIP32 reference; indexes 0..11")
+          rule="pkh, wpkh, sh(wpkh), wsh/sh multi, sortedmulti, tr and tr with a two-leaf tree over ranged account xpubs from the independent BIP32 reference; indexes 0..11 (index_of) and the last two unhardened indexes 2^31-2, 2^31-1 (derivation)")
 class DescriptorBounded:
     def post_derives_what_it_describes(kind, seeds, branch, index, result):
         got, want, reparsed, chk, found, not_mine, leaves_ok = result
@@ -142,17 +142,31 @@ class DescriptorBounded:
 
 def _gen_corrupt(rng):
     g = _gen_desc(rng)
+    g["index"] = 0
     s, _, _ = describe(g["kind"], g["seeds"], g["branch"], g["index"])
     full = D.add_checksum(s)
-    i = rng.randrange(len(full))
-    c = rng.choice("0123456789abcdefghijklmnopqrstuvwxyz()/*,#")
-    if c == full[i]:
-        c = "q" if full[i] != "q" else "p"
-    return dict(descriptor=full[:i] + c + full[i + 1:])
+    k = rng.random()
+    if k < 0.6:
+        i = rng.randrange(len(full))
+        c = rng.choice("0123456789abcdefghijklmnopqrstuvwxyz()/*,#")
+        if c == full[i]:
+            c = "q" if full[i] != "q" else "p"
+        return dict(descriptor=full[:i] + c + full[i + 1:])
+    if k < 0.75:
+        return dict(descriptor=full[:-rng.randrange(1, 9)])          # checksum cut short, down to a bare '#'
+    if k < 0.85:
+        i = rng.randrange(len(full) + 1)
+        return dict(descriptor=full[:i] + rng.choice("0123456789abcdefqpzry#") + full[i:])
+    if k < 0.95:
+        i = rng.randrange(len(full))
+        if full[i] == "#":
+            i -= 1
+        return dict(descriptor=full[:i] + full[i + 1:])
+    return dict(descriptor=full + rng.choice("q#p "))
 
 
 @contract("btclib.descriptors.descriptors.parse", gen=_gen_corrupt, props="C14 C19", n_quick=150, n_thorough=4000,
-          rule="every kind of descriptor above with one character substituted (body or checksum)")
+          rule="every kind of descriptor above with one character substituted, inserted or deleted (body or checksum), the checksum cut short by 1..8 characters (a bare # included), a character appended")
 class CorruptedDescriptorBounded:
     """a corrupted descriptor string is refused (BIP380: any single-character error is detected)"""
 
@@ -164,3 +178,53 @@ class CorruptedDescriptorBounded:
 def descsum_polymod(symbols):
     """the 40-bit polymod equals BIP380's bit-by-bit reference for all inputs of 1..5 symbols"""
     return getattr(D, "__descsum_polymod")(symbols) == ref_polymod(symbols)
+
+
+
+# ---------------------------------------------------------------- a wallet with private keys
+def wallet_positions(seed, shape, queries):
+    """a DescriptorWallet built from an xprv descriptor whose steps below the key may be hardened;
+    returns per (branch, index): the script it derives, the position it reports for that script
+    and for its address, and the position of a foreign script"""
+    from btclib.wallet import DescriptorWallet
+    root = bip32_ref.master(bytes([seed]) * 32, XPRV_VER)
+    xprv = check_encode(bip32_ref.serialize(root))
+    text = {"plain": f"wpkh({xprv}/<0;1>/*)", "hard-wildcard": f"wpkh({xprv}/<0;1>/*h)", "hard-step": f"wpkh({xprv}/84h/0h/<0;1>/*)",
+            "hard-both": f"pkh({xprv}/44h/<0;1>/*h)", "tr-hard": f"tr({xprv}/86h/0h/0h/<0;1>/*)"}[shape]
+    w = DescriptorWallet.from_descriptor(D.add_checksum(text), prv_keys={})
+    out = []
+    for branch, index in queries:
+        spk = w.script_pub_key(branch, index)
+        out.append((spk.script, w.position_of(spk, 8), w.position_of(spk.address, 8)))
+    foreign = w.position_of(b"\x00\x14" + bytes(range(20)), 8)
+    return out, foreign
+
+
+def _gen_wallet_positions(rng):
+    return dict(seed=rng.randrange(1, 200), shape=rng.choice(["plain", "hard-wildcard", "hard-step", "hard-both", "tr-hard"]),
+                queries=[(rng.choice([0, 1]), rng.randrange(0, 8)) for _ in range(rng.randrange(1, 4))])
+
+
+@contract("contracts.c_descriptors.wallet_positions", gen=_gen_wallet_positions, props="C14", n_quick=40, n_thorough=800,
+          rule="two-branch wallets over an xprv with no, one or two hardened steps below the key (hardened wildcard included), wpkh / pkh / tr; 1..3 positions in 0..7")
+class WalletPositionBounded:
+    """the wallet derives the script BIP32-by-hand derives, reports its own scripts at their
+    position, and a foreign script as not its own"""
+
+    def post_positions(seed, shape, queries, result):
+        out, foreign = result
+        H = bip32_ref.HARD
+        root = bip32_ref.master(bytes([seed]) * 32, XPRV_VER)
+        ok = foreign is None
+        for (branch, index), (script, p1, p2) in zip(queries, out):
+            path = {"plain": [branch, index], "hard-wildcard": [branch, H + index], "hard-step": [H + 84, H, branch, index],
+                    "hard-both": [H + 44, branch, H + index], "tr-hard": [H + 86, H, H, branch, index]}[shape]
+            pub = bip32_ref.pub_of(bip32_ref.derive(root, path))
+            if shape == "hard-both":
+                want = b"\x76\xa9\x14" + h160(pub) + b"\x88\xac"
+            elif shape == "tr-hard":
+                want = b"\x51\x20" + taproot_ref.tweak_pubkey(pub[1:], b"")[1]
+            else:
+                want = b"\x00\x14" + h160(pub)
+            ok = ok and script == want and p1 == (branch, index) and p2 == (branch, index)
+        return ok
